@@ -470,7 +470,7 @@ write_callable_info (const gchar    *namespace,
   write_ownership_transfer (g_callable_info_get_caller_owns (info), file);
 
   if (g_callable_info_may_return_null (info))
-    xml_printf (file, " allow-none=\"1\"");
+    xml_printf (file, " nullable=\"1\"");
 
   if (g_callable_info_skip_return (info))
     xml_printf (file, " skip=\"1\"");
@@ -511,7 +511,7 @@ write_callable_info (const gchar    *namespace,
 	}
 
       if (g_arg_info_may_be_null (arg))
-	xml_printf (file, " allow-none=\"1\"");
+	xml_printf (file, " nullable=\"1\"");
 
       if (g_arg_info_is_return_value (arg))
 	xml_printf (file, " retval=\"1\"");
